@@ -50,6 +50,7 @@ func (r *Runner) envTx(msg sdk.Msg) (abci.ResponseDeliverTx, error) {
 	if err != nil {
 		return abci.ResponseDeliverTx{}, err
 	}
+	r.blk.txs = append(r.blk.txs, BlockTx{N: -1, Bz: bz})
 	return r.App.DeliverTx(abci.RequestDeliverTx{Tx: bz}), nil
 }
 
